@@ -1,5 +1,6 @@
 """C13 — static and dynamic definitions of a metamodel are interchangeable (DESIGN.md section 4)."""
 import os
+import sys
 import shutil
 import tempfile
 from . import common, store, histories, static_render, models
@@ -492,6 +493,116 @@ def constructor_pass(ctx):
                     break
 
 
+NARROW_SRC = '''
+from pyecore.ecore import *
+name = 'co'; nsURI = 'http://verif/co'; nsPrefix = 'co'
+eClass = EPackage(name=name, nsURI=nsURI, nsPrefix=nsPrefix)
+class Person(EObject, metaclass=MetaEClass):
+    name = EAttribute(eType=EString)
+    employer = EReference(upper={up_employer})
+    desk = EReference()
+class Employee(Person):
+    pass
+class Company(EObject, metaclass=MetaEClass):
+    staff = EReference(upper={up_staff}, ordered=True, unique=True)
+class Desk(EObject, metaclass=MetaEClass):
+    user = EReference()
+# the layout of generated code: types and opposites are bound once every class exists
+Person.employer.eType = Company
+Company.staff.eType = Employee
+Person.employer.eOpposite = Company.staff
+Person.desk.eType = Desk
+Desk.user.eType = Employee
+Person.desk.eOpposite = Desk.user
+'''
+
+
+def narrow_opposite_pass(ctx):
+    """a reference declared on a supertype whose opposite is typed by a *subtype* (Person.employer <-> Company.staff : Employee):
+    a plain Person offered from the Person side has to be refused on both renderings, with the same exception, state and
+    notifications — the static side binds its types late (Company.staff.eType = Employee, as generated code does)"""
+    from pyecore import ecore as E
+    from pyecore.notification import EObserver
+    paths = ['attr', 'eSet', 'append-other-side', 'assign-list', 'Set-command']
+    for k in range(8 if ctx.quick() else 40):
+        rng = common.sub_rng(ctx.seed, 'C13', 'narrow', k)
+        up_e, up_s = rng.choice([(1, -1), (1, 1), (-1, -1)])
+        # dynamic
+        Person, Employee, Company, Desk = E.EClass('Person'), E.EClass('Employee'), E.EClass('Company'), E.EClass('Desk')
+        Employee.eSuperTypes.append(Person)
+        employer = E.EReference('employer', Company, upper=up_e)
+        staff = E.EReference('staff', Employee, upper=up_s, eOpposite=employer)
+        desk = E.EReference('desk', Desk)
+        user = E.EReference('user', Employee, eOpposite=desk)
+        Person.eStructuralFeatures.extend([E.EAttribute('name', E.EString), employer, desk])
+        Company.eStructuralFeatures.append(staff)
+        Desk.eStructuralFeatures.append(user)
+        dyn = {'Person': Person, 'Employee': Employee, 'Company': Company, 'Desk': Desk}
+        mod = types_module(NARROW_SRC.format(up_employer=up_e, up_staff=up_s))
+        sta = {n: getattr(mod, n) for n in dyn}
+        for path in paths:
+            for who in ('Person', 'Employee'):
+                outs = []
+                for side in (dyn, sta):
+                    bob, acme, d = side[who](), side['Company'](), side['Desk']()
+                    log = []
+                    for o in (bob, acme, d):
+                        EObserver(o, notifyChanged=lambda n, log=log: log.append((n.kind.name, n.feature.name)))
+                    try:
+                        if path == 'attr':
+                            if up_e == 1:
+                                bob.employer = acme
+                            else:
+                                bob.employer.append(acme)
+                            bob.desk = d
+                        elif path == 'eSet':
+                            bob.eSet('desk', d)
+                        elif path == 'append-other-side':
+                            if up_s == 1:
+                                acme.staff = bob
+                            else:
+                                acme.staff.append(bob)
+                        elif path == 'assign-list':
+                            if up_e == 1:
+                                continue
+                            bob.employer = [acme]
+                        else:
+                            from pyecore.commands import Set, CommandStack
+                            CommandStack().execute(Set(bob, 'desk', d))
+                        res = 'ok'
+                    except Exception as e:
+                        res = type(e).__name__
+                    emp = bob.employer
+                    st = acme.staff
+                    state = (res, [emp is acme] if up_e == 1 else [x is acme for x in emp],
+                             [st is bob] if up_s == 1 else [x is bob for x in st], bob.desk is d, d.user is bob,
+                             bob.eIsSet('employer'), bob.eIsSet('desk'), acme.eIsSet('staff'), d.eIsSet('user'), sorted(log))
+                    outs.append(state)
+                if len(outs) < 2:
+                    continue
+                ctx.evaluations += 1
+                ctx.count('narrow-opposite/' + path)
+                ctx.nontriv(('narrow', k, path, who))
+                if outs[0] != outs[1]:
+                    ctx.violate({'clause': 'result-differs', 'op': 'narrow-opposite'},
+                                f'a {who} offered to Person.employer/desk (opposites typed Employee) via {path}: dynamic {outs[0]}, static {outs[1]}',
+                                {'narrow': True, 'case': k, 'path': path, 'who': who, 'upper': [up_e, up_s]})
+                    return
+
+
+def types_module(src):
+    import types as _t
+    static_render._count[0] += 1
+    name = f'c13_narrow_{static_render._count[0]}'
+    mod = _t.ModuleType(name)
+    sys.modules[name] = mod
+    try:
+        exec(compile(src, name, 'exec'), mod.__dict__)
+    finally:
+        sys.modules.pop(name, None)
+    return mod
+
+
 def run(ctx):
     common.use_repo()
     ctx.rule = ('(a) generated metamodel descriptions (2-5 classes, inheritance incl. diamonds, abstract classes, attributes with '
@@ -507,6 +618,7 @@ def run(ctx):
     describe_pass(ctx)
     history_pass(ctx)
     constructor_pass(ctx)
+    narrow_opposite_pass(ctx)
     ctx.assumptions += ['operations are compared by name, parameter names in order and required flags; the reflected `self` parameter of a '
                         'static method is written explicitly on the dynamic side (a dynamic EOperation without it describes the same method)',
                         'order of notifications across different (notifier, feature) pairs is not compared (delete() walks a set)']
